@@ -331,8 +331,8 @@ pub fn mint_n(g: &mut G, n: usize, rep: bool) -> Mint {
     let mut m = Mint::new(); let mut last: Option<ScriptHash> = None;
     for i in 0..n {
         let p = if rep && i % 2 == 1 { g.dups += 1; last.clone().unwrap() } else { scripthash(g) };
-        let k = g.some_len().min(4);
-        let rep2 = g.below(4) == 0;
+        let k = if g.below(8) == 0 { 0 } else { g.some_len().min(4) };
+        let rep2 = k > 0 && g.below(4) == 0;
         m.insert(&p, &mint_assets_n(g, if rep2 { k.max(2) } else { k }, rep2)); last = Some(p);
     }
     m
@@ -420,16 +420,17 @@ pub fn constr_plutus_data(g: &mut G) -> ConstrPlutusData {
 }
 pub fn plutus_data(g: &mut G) -> PlutusData {
     let k = g.pick(9);
-    let k = if !pdepth_ok(g) && k < 5 { 5 + k % 4 } else { k };
+    // kinds 0..=5 are containers (also the empty ones); below the depth bound only leaves
+    let k = if !pdepth_ok(g) && k < 6 { 6 + k % 3 } else { k };
     match k {
         0 => PlutusData::new_constr_plutus_data(&g.nest(constr_plutus_data)),
         1 => PlutusData::new_map(&g.nest(plutus_map)),
         2 => { g.ndepth += 1; let l = sub_list(g); g.ndepth -= 1; PlutusData::new_list(&l) }
         3 => { g.ndepth += 1; let d = g.nest(plutus_data); g.ndepth -= 1; PlutusData::new_single_value_constr_plutus_data(&BigNum::from(g.below(200)), &d) }
         4 => PlutusData::new_list(&PlutusList::new()),
-        5 => PlutusData::new_integer(&bigint(g)),
-        6 => { let n = match g.below(7) { 0 => 0, 1 => 64, 2 => 65, 3 => 128, 4 => 129 + g.below(100) as usize, _ => g.below(64) as usize }; PlutusData::new_bytes(g.bytes(n)) }
-        7 => PlutusData::new_empty_constr_plutus_data(&BigNum::from(g.below(300))),
+        5 => PlutusData::new_empty_constr_plutus_data(&BigNum::from(g.below(300))),
+        6 => PlutusData::new_integer(&bigint(g)),
+        7 => { let n = match g.below(7) { 0 => 0, 1 => 64, 2 => 65, 3 => 128, 4 => 129 + g.below(100) as usize, _ => g.below(64) as usize }; PlutusData::new_bytes(g.bytes(n)) }
         _ => PlutusData::new_integer(&BigInt::from_str(&format!("{}", g.below(1000))).unwrap()),
     }
 }
